@@ -230,6 +230,7 @@ pub mod tstd {
     pub assume_specification[f32::round](x: f32) -> (r: f32) ensures r == f_round(x);
     pub assume_specification[f32::powf](x: f32, y: f32) -> (r: f32) ensures r == f_powf(x, y);
     pub assume_specification[f32::max](x: f32, y: f32) -> (r: f32) ensures r == f_max(x, y);
+    pub assume_specification[f32::clamp](x: f32, lo: f32, hi: f32) -> (r: f32) requires crate::spec::f32_le(lo, hi), ensures r == crate::spec::f_clamp(x, lo, hi);
     pub assume_specification[f32::min](x: f32, y: f32) -> (r: f32) ensures r == f_min(x, y);
 
     // wall clock: now() / elapsed() return arbitrary values (no assumption about time passing)
@@ -286,6 +287,7 @@ pub mod spec {
     /// views with a fixed element type: naming a `vec![]` local through them also tells rustc its element type
     pub open spec fn seq_f32(v: &Vec<f32>) -> Seq<f32> { v@ }
     pub open spec fn seq_i32(v: &Vec<i32>) -> Seq<i32> { v@ }
+    pub open spec fn seq_bool(v: &Vec<bool>) -> Seq<bool> { v@ }
     /// element i of the documented sine wave A*sin(2*pi*x*i + phi), with the f32 operations in the order the formula is written
     pub open spec fn sine_elem(a: f32, x: f32, phi: f32, i: usize) -> f32 {
         f32_mul(a, f_sin(f32_add(f32_mul(f32_mul(f32_mul(2.0f32, f_pi()), x), usize_to_f32(i)), phi)))
@@ -293,6 +295,25 @@ pub mod spec {
     pub uninterp spec fn f_pi() -> f32;
     #[verifier::external_body]
     pub fn f32_pi() -> (r: f32) ensures r == f_pi() { std::f32::consts::PI }
+    // R7c: the f32 associated constants (no Verus specification for core::f32 constants): wrappers returning the constant itself
+    pub uninterp spec fn f_max_value() -> f32;
+    pub uninterp spec fn f_min_value() -> f32;
+    pub uninterp spec fn f_infinity() -> f32;
+    pub uninterp spec fn f_neg_infinity() -> f32;
+    pub uninterp spec fn f_epsilon() -> f32;
+    pub uninterp spec fn f_nan() -> f32;
+    #[verifier::external_body] pub fn f32_max_value() -> (r: f32) ensures r == f_max_value() { f32::MAX }
+    #[verifier::external_body] pub fn f32_min_value() -> (r: f32) ensures r == f_min_value() { f32::MIN }
+    #[verifier::external_body] pub fn f32_infinity() -> (r: f32) ensures r == f_infinity() { f32::INFINITY }
+    #[verifier::external_body] pub fn f32_neg_infinity() -> (r: f32) ensures r == f_neg_infinity() { f32::NEG_INFINITY }
+    #[verifier::external_body] pub fn f32_epsilon() -> (r: f32) ensures r == f_epsilon() { f32::EPSILON }
+    #[verifier::external_body] pub fn f32_nan() -> (r: f32) ensures r == f_nan() { f32::NAN }
+    /// float fact L4 (Kani harness l4_f32_constants): 0.0 <= f32::MAX, 0.0 <= f32::INFINITY, f32::MIN <= 0.0, f32::NEG_INFINITY <= 0.0
+    pub broadcast axiom fn ax_f32_constants()
+        ensures #![trigger f_max_value()] #![trigger f_infinity()] #![trigger f_min_value()] #![trigger f_neg_infinity()]
+            f32_le(0.0f32, f_max_value()), f32_le(0.0f32, f_infinity()), f32_le(f_min_value(), 0.0f32), f32_le(f_neg_infinity(), 0.0f32);
+    /// f32::clamp as std implements it: NaN passes through; panics unless min <= max (which excludes NaN bounds)
+    pub open spec fn f_clamp(x: f32, lo: f32, hi: f32) -> f32 { if f32_lt(x, lo) { lo } else if f32_gt(x, hi) { hi } else { x } }
     pub uninterp spec fn f32_to_usize_spec(x: f32) -> usize;
     #[verifier::external_body]
     pub fn f32_to_usize(x: f32) -> (r: usize) ensures r == f32_to_usize_spec(x) { x as usize }
@@ -364,7 +385,7 @@ pub mod spec {
             <f32 as RemSpec>::obeys_rem_spec(),
             <f32 as PartialOrdSpec>::obeys_partial_cmp_spec(), <f32 as PartialEqSpec>::obeys_eq_spec();
     pub broadcast group group_float_total {
-        ax_f32_add_req, ax_f32_sub_req, ax_f32_mul_req, ax_f32_div_req, ax_f32_rem_req, ax_f32_obeys, ax_normal_std_ok,
+        ax_f32_add_req, ax_f32_sub_req, ax_f32_mul_req, ax_f32_div_req, ax_f32_rem_req, ax_f32_obeys, ax_normal_std_ok, ax_f32_constants,
     }
     pub open spec fn f32_add(a: f32, b: f32) -> f32 { a.add_spec(b) }
     pub open spec fn f32_sub(a: f32, b: f32) -> f32 { a.sub_spec(b) }
